@@ -2,8 +2,11 @@
 package main
 
 import (
+	"encoding/json"
+	"fmt"
 	"os"
 
+	"verifh/lib"
 	"verifh/luagen"
 	"verifh/luaprop"
 )
@@ -11,6 +14,38 @@ import (
 func main() {
 	if len(os.Args) > 1 && os.Args[1] == "fenvchild" {
 		fenvChild(os.Args[2:])
+		return
+	}
+	if len(os.Args) > 3 && os.Args[1] == "w5gen" { // development aid: programs of the nested-exit mode and what they print
+		var seed uint64
+		var n int
+		fmt.Sscan(os.Args[2], &seed)
+		fmt.Sscan(os.Args[3], &n)
+		asCoq := len(os.Args) > 4 && os.Args[4] == "coq" // a file comparing them with the reference evaluator alone
+		if asCoq {
+			fmt.Println(luaprop.Header + "\nRequire Import GL.Common.Cases.\nOpen Scope Z_scope.")
+		}
+		for i := 0; i < n; i++ {
+			prog := luagen.W5C03Program(lib.NewRand(seed*1000003 + uint64(i)))
+			src := luagen.PrintLua(prog)
+			out := luagen.Run(src, nil)
+			if asCoq {
+				fmt.Printf("Definition c%d : case := CProg %s %s.\n", i, luagen.CoqBlock(prog), out.Coq())
+				continue
+			}
+			b, _ := json.Marshal(map[string]any{"i": i, "src": src, "out": out.Summary()})
+			fmt.Println(string(b))
+		}
+		if asCoq {
+			fmt.Print("Definition cases : list (Z * case) := [")
+			for i := 0; i < n; i++ {
+				if i > 0 {
+					fmt.Print("; ")
+				}
+				fmt.Printf("(%d, c%d)", i, i)
+			}
+			fmt.Println("].\nDefinition Mskip := Eval vm_compute in mism (fun c => negb (check_skip c)) cases.\nPrint Mskip.\nDefinition Mspec := Eval vm_compute in mism check_spec cases.\nPrint Mspec.")
+		}
 		return
 	}
 	f := luagen.CoreFeatures()
